@@ -6,7 +6,7 @@
   C17.uses       static (AST) check: cuesheet.py touches a line's text only through .strip(), len() and the four compiled patterns - so by C17.line a
                  re-cased / re-indented line drives the parser exactly like the canonical one.
   C17.insert/*   (CrossHair, decision tree) the REAL parse_cue_sheet on canonical sheets of 1..3 tracks (TITLE / second INDEX presence symbolic) with one or
-                 two cosmetic lines (empty, blanks, tab, REM, PERFORMER, FLAGS, PREGAP) inserted at every admissible position equals the parse of the
+                 two cosmetic lines (empty, blanks, tab, REM, PERFORMER, FLAGS, PREGAP, REM lines that quote FILE/TRACK/INDEX text) inserted at every admissible position equals the parse of the
                  canonical sheet; re-casing / re-indenting every line at once as well.
   C17.reject     no FILE line => BadCueSheet; non-ASCII text => BadTextFile => binary path taken by determine_image_type.
 """
@@ -170,7 +170,7 @@ def _parent(root, target):
 
 
 # ------------------------------------------------------------------ whole sheets (engine X, decision tree; concrete per path)
-COSMETIC = ["", "   ", "\t", "REM COMMENT x", 'PERFORMER "p"', "FLAGS DCP", "PREGAP 00:02:00"]
+COSMETIC = ["", "   ", "\t", "REM COMMENT x", 'PERFORMER "p"', "FLAGS DCP", "PREGAP 00:02:00", 'REM FILE "old.bin" BINARY', "REM TRACK 09 AUDIO then INDEX 01 00:00:00"]
 
 
 def _canonical(ntracks, titles, idx2, data_last):
@@ -239,16 +239,16 @@ def _admissible(lines, p, cosmetic):
 def h_insert(ntracks: int, t0: int, t1: int, t2: int, x0: int, x1: int, x2: int, data_last: int, p: int, c: int, p2: int, c2: int, two: int) -> int:
     """
     pre: 1 <= ntracks <= 3 and 0 <= t0 <= 1 and 0 <= t1 <= 1 and 0 <= t2 <= 1 and 0 <= x0 <= 1 and 0 <= x1 <= 1 and 0 <= x2 <= 1
-    pre: 0 <= data_last <= 1 and 0 <= p <= 13 and 0 <= c <= 6 and 0 <= p2 <= 14 and 0 <= c2 <= 6 and 0 <= two <= 1
+    pre: 0 <= data_last <= 1 and 0 <= p <= 13 and 0 <= c <= 8 and 0 <= p2 <= 14 and 0 <= c2 <= 8 and 0 <= two <= 1
     post: _ == 1
     """
     CNT[0] += 1
     ntracks, data_last, two = conc(ntracks, 1, 3), conc(data_last, 0, 1), conc(two, 0, 1)
     titles = [conc(v, 0, 1) for v in (t0, t1, t2)[:ntracks]] + [0] * (3 - ntracks)
     idx2 = [conc(v, 0, 1) for v in (x0, x1, x2)[:ntracks]] + [0] * (3 - ntracks)
-    p, c = conc(p, 0, 13), conc(c, 0, 6)
+    p, c = conc(p, 0, 13), conc(c, 0, 8)
     if two:
-        p2, c2 = conc(p2, 0, 14), conc(c2, 0, 6)
+        p2, c2 = conc(p2, 0, 14), conc(c2, 0, 8)
     with untraced():
         base = _canonical(ntracks, titles, idx2, data_last)
         if p > len(base) or not _admissible(base, p, COSMETIC[c]):
@@ -364,9 +364,9 @@ def obligations(tier, seed):
             if two == 0:
                 obs.append(dict(name=f"C17.insert/tracks={nt}/one", module="vf.props.c17", func="h_insert",
                                 extra_pre=[f"ntracks == {nt}", "two == 0", "p2 == 0 and c2 == 0"] + (["x0 == 0 and x1 == 0 and x2 == 0 and data_last == 0"] if (q and nt == 3) else []),
-                                timeout=T, runs=RUNS, sym="sheet shape, position and kind of the inserted line", bound=f"{nt} track(s); 7 cosmetic lines x every position", stubs=[]))
+                                timeout=T, runs=RUNS, sym="sheet shape, position and kind of the inserted line", bound=f"{nt} track(s); 9 cosmetic lines (blank, tab, REM, PERFORMER, FLAGS, PREGAP, REM lines quoting FILE/TRACK/INDEX text) x every position", stubs=[]))
             else:
-                for c in range(7):
+                for c in range(9):
                     obs.append(dict(name=f"C17.insert/tracks={nt}/two/first={c}", module="vf.props.c17", func="h_insert", extra_pre=[f"ntracks == {nt}", "two == 1", f"c == {c}", "t2 == 0 and x2 == 0 and x1 == 0"],
                                     timeout=T, runs=RUNS, sym="sheet shape, positions and kinds of two inserted lines", bound=f"{nt} track(s); two insertions", stubs=[]))
     if q:
